@@ -275,6 +275,12 @@ func C10(ctx *core.Ctx, r *core.Report) {
 	parseBaseTen(ctx, r, fns, 3)
 	loopErrorTested(ctx, r, fns, 5)
 	floatTextExact(ctx, r, fns, 1)
+	{
+		// text of XML string leaves and leaf-lists reaches the conversion as written (C19's rule on the reader)
+		sub := core.NewReport("C19", r.Tier, r.Root, r.Seed)
+		C19(ctx, sub)
+		r.Borrow(sub, "no-lossy-text")
+	}
 }
 
 // c10ConvTotal: every return of val.Conv (and node.NewValue) returns a
